@@ -525,7 +525,12 @@ htp_status_t htp_connp_REQ_BODY_CHUNKED_LENGTH(htp_connp_t *connp) {
                 // More data available.                
                 connp->in_state = htp_connp_REQ_BODY_CHUNKED_DATA;
             } else if (connp->in_chunked_length == 0) {
-                // End of data.
+                // End of data. The decompressors hand out what they still
+                // hold now: the trailer comes after the body.
+                if (connp->req_decompressor != NULL) {
+                    htp_status_t rc = htp_tx_req_process_body_data_ex(connp->in_tx, NULL, 0);
+                    if (rc != HTP_OK) return rc;
+                }
                 connp->in_state = htp_connp_REQ_HEADERS;
                 connp->in_tx->request_progress = HTP_REQUEST_TRAILER;
             } else {
